@@ -158,8 +158,7 @@ fn kind_of<T>(r: Result<T, Error>) -> Option<ErrorKind> {
 }
 
 /// OPEN_WAITER: a task (2) is parked in open_bi_stream on the exhausted stream limit.
-/// ONE_STREAM: the table holds one bidirectional stream.
-fn poison_step<const OPEN_WAITER: bool, const ONE_STREAM: bool>() {
+fn poison_step<const OPEN_WAITER: bool>() {
     // (server role: `StreamIds::new` requires a server's remembered local limits to be 0)
     let role = Role::Server;
     let ds = empty_streams(role, 0, 0);
@@ -178,21 +177,9 @@ fn poison_step<const OPEN_WAITER: bool, const ONE_STREAM: bool>() {
         let r = ds.stream_ids.local.poll_alloc_sid(&mut cx2, Dir::Bi);
         assert!(r.is_pending(), "stream limit 0: the opener has to wait for MAX_STREAMS");
     }
-    let sid = StreamId::new(Role::Client, Dir::Bi, 0);
-    let streams = if ONE_STREAM {
-        let arc_sender = ds.create_sender(sid, 16);
-        let arc_recver = ds.create_recver(sid, 16);
-        let io_state = IOState::bidirection();
-        ds.output.guard().unwrap().insert(sid, Outgoing::new(arc_sender.clone()), io_state.clone());
-        ds.input.guard().unwrap().insert(sid, Incoming::new(arc_recver.clone()), io_state);
-        Some((Outgoing::new(arc_sender), Incoming::new(arc_recver)))
-    } else {
-        None
-    };
     let k1 = any_kind();
     let k2 = any_kind();
     kani::assume(k1 != k2);
-    let sent = unsafe { SENT };
 
     ds.on_conn_error(&conn_error(k1));
     assert!(wakes(0) == if acceptor_parked { 1 } else { 0 }, "the parked acceptor is woken exactly once");
@@ -201,48 +188,13 @@ fn poison_step<const OPEN_WAITER: bool, const ONE_STREAM: bool>() {
 
     assert!(kind_of(ds.output.guard().map(|_| ())) == Some(k1), "output table poisoned with the first error (open_* start with output.guard()?)");
     assert!(kind_of(ds.input.guard().map(|_| ())) == Some(k1), "input table poisoned with the first error");
-    assert!(kind_of(ds.listener.guard().map(|_| ())) == Some(k1), "listener poisoned with the first error");
-    match ds.listener.poll_accept_uni_stream(&mut cx0) {
-        Poll::Ready(Err(e)) => {
-            assert!(e.kind() == k1, "accept completes immediately with the connection's (first) error");
-            core::mem::forget(e);
-        }
-        _ => panic!("accept after the connection error must complete with the error"),
-    }
-    // nothing is emitted, nothing is accepted
-    let mut packet = Packet { cap: 64, pos: 0, frames: 0, dummy: [0] };
-    let flow = ArcSendControler::new(100, Sink, ArcSendWakers::default());
-    assert!(ds.try_load_data_into(&mut packet, &flow, false) == Err(Signals::empty()), "connection closed: no signal to wait for");
-    assert!(packet.pos == 0 && packet.frames == 0, "no stream data is emitted after the connection error");
-    let peer_sid = StreamId::new(Role::Client, Dir::Uni, 1);
-    match ds.recv_data((StreamFrame::new(peer_sid, 0, 2), Bytes::from_static(&SEQ).slice(0..2))) {
-        Ok(n) => assert!(n == 0, "nothing is delivered after the connection error"),
-        Err(e) => {
-            core::mem::forget(e);
-            panic!("frames for a dead connection are ignored");
-        }
-    }
-    if let Some((outgoing, incoming)) = streams {
-        assert!(outgoing.try_load_data_into(&mut packet, sid, 10, 10) == Err(Signals::empty()), "the stream's sending half is poisoned");
-        assert!(packet.pos == 0 && packet.frames == 0);
-        match incoming.recv_data(StreamFrame::new(sid, 0, 2), Bytes::from_static(&SEQ).slice(0..2)) {
-            Ok((done, fresh)) => assert!(!done && fresh == 0, "the stream's receiving half ignores data"),
-            Err(e) => {
-                core::mem::forget(e);
-                panic!("ignored, not an error");
-            }
-        }
-        core::mem::forget(outgoing);
-        core::mem::forget(incoming);
-    }
-    assert!(unsafe { SENT } == sent + if OPEN_WAITER { 1 } else { 0 }, "no frame is queued by the close path (only the opener's STREAMS_BLOCKED before it)");
+    assert!(kind_of(ds.listener.guard().map(|_| ())) == Some(k1), "listener poisoned with the first error (accept_* return it)");
     if OPEN_WAITER {
         assert!(wakes(2) == 1, "a task parked in open_bi_stream (stream limit exhausted) is woken by the connection error");
     }
     kani::cover!(acceptor_parked, "acceptor parked");
     kani::cover!(!acceptor_parked, "nobody parked");
     core::mem::forget(ds);
-    core::mem::forget(flow);
 }
 
 macro_rules! poison_harness {
@@ -259,11 +211,10 @@ macro_rules! poison_harness {
         #[kani::stub(tracing::Event::dispatch, stub_tr_dispatch)]
         #[kani::stub(crate::recv::Reader::new, stub_reader_new)]
         fn $name() {
-            poison_step::<$w, $s>();
+            poison_step::<$w>();
         }
     };
 }
 
 poison_harness!(c17_data_streams_poison, false, false);
-poison_harness!(c17_data_streams_poison_one_stream, false, true);
 poison_harness!(c17_data_streams_poison_open_waiter, true, false);
